@@ -927,5 +927,5 @@ def unit_inline(modules: Sequence[str], keep: Sequence[str]) -> Callable[[FuncIn
     def policy(fi: FuncInfo) -> bool:
         if default_inline(fi):
             return True
-        return fi.module.name in mods and fi.name not in kept and not fi.is_generator() and not fi.decorators
+        return fi.module.name in mods and fi.name not in kept and not fi.is_generator() and all(d in ("staticmethod", "classmethod") for d in fi.decorators)
     return policy
